@@ -41,7 +41,7 @@ import (
 
 func main() {
 	if len(os.Args) < 2 {
-		fmt.Fprintln(os.Stderr, "usage: c15 sess|hist [flags] | c15 consts -repo DIR")
+		fmt.Fprintln(os.Stderr, "usage: c15 sess|hist|mhist [flags] | c15 consts -repo DIR")
 		os.Exit(2)
 	}
 	switch os.Args[1] {
@@ -49,6 +49,8 @@ func main() {
 		os.Exit(sessMode(os.Args[2:]))
 	case "hist":
 		os.Exit(histMode(os.Args[2:]))
+	case "mhist":
+		os.Exit(mhistMode(os.Args[2:]))
 	case "consts":
 		os.Exit(constsMode(os.Args[2:]))
 	default:
